@@ -165,7 +165,8 @@ func (c *RegConfig) ParseOrResolveBlocklisted(provided string) (string, bool) {
 	if err != nil {
 		return "", lookup
 	}
-	if addr == nil || c.isBlocklistedCovertAddr(addr.IP) {
+	if addr == nil || addr.IP == nil || c.isBlocklistedCovertAddr(addr.IP) {
+		// (an empty host resolves, without error, to an IPAddr that holds no address)
 		return "", lookup
 	}
 	return net.JoinHostPort(addr.String(), port), lookup
